@@ -175,9 +175,15 @@ func spaces(quick bool) []*Space {
 	strip := func(s *Space) *Space { s.Strip = true; return s }
 	// two uploads before osm.CommitInfoStart (2012-09-12 09:30:03), the third exactly at that instant, the others after it
 	crossing := func(s *Space) *Space { s.Start = osm.CommitInfoStart.Add(-2 * time.Hour); return strip(s) }
+	// timestamp-only histories written after osm.CommitInfoStart (data that carries no commit
+	// times, e.g. fetched from the API): the regime follows from the absence of Committed, not
+	// from the calendar
+	late := func(s *Space) *Space { s.Start = time.Date(2014, 3, 1, 12, 0, 0, 0, time.UTC); return s }
 	if quick {
 		return []*Space{
 			// --- boundary classes
+			late(pre("way2", 3, m, all, 2*h, 0)),
+			late(inter(odd(pre("rel3", 2, 30*m, all, 2*h, 0)))),
 			zeros(commit("way2x", 3, true, h, 100*ms)),
 			zeros(pre("way2x", 3, m, all, 2*h, 0)),
 			pre("way2", 3, 0, []int{0}, 2*h, 0), // no skew at all: Threshold(0) is inside the domain
@@ -199,6 +205,9 @@ func spaces(quick bool) []*Space {
 	}
 	return []*Space{
 		// --- boundary classes
+		late(pre("way2", 4, m, all, 2*h, 0)),
+		late(inter(pre("way2", 3, m, all, 2*h, 10*m, 0))),
+		late(inter(odd(pre("rel3", 3, 30*m, all, 2*h, 0)))),
 		zeros(commit("way2x", 4, true, h, 100*ms)),
 		zeros(pre("way2x", 4, m, all, 2*h, 0)),
 		inter(zeros(pre("way2x", 3, m, all, 2*h, 10*m, 0))),
